@@ -8,6 +8,7 @@ use crate::with_kt;
 use crate::Args;
 use std::path::{Path, PathBuf};
 
+mod bigreg;
 mod c08;
 mod c09;
 mod c10;
@@ -34,6 +35,7 @@ pub fn dispatch(a: &Args) -> i32 {
         "c06cyc" => c06_cyclic(a),
         "c07" => c07(a),
         "c07-k2child" => return c07_k2_child(a),
+        "bigreg" => bigreg::run(a),
         "c08" => c08::run(a),
         "c09" => c09::run(a),
         "c09probe" => c09::probe(a),
@@ -120,7 +122,10 @@ pub fn run_and_record(a: &Args, h: &History, mon: &Mon, ctx: &mut Ctx, tag: &str
     ctx.count(&format!("histories.table.{}", table_class(h.cfg.buckets.expected_n())), 1);
     let after: u64 = ctx.notes_seen.values().sum();
     // final image digest
-    if let Ok(img) = Image::read(&dir, "m") {
+    let big_files = ["m.val", "m.key"].iter().any(|f| std::fs::metadata(dir.join(f)).map(|m| m.len() > (1 << 30)).unwrap_or(false));
+    if big_files {
+        ctx.max("max_val_file", std::fs::metadata(dir.join("m.val")).map(|m| m.len()).unwrap_or(0));
+    } else if let Ok(img) = Image::read(&dir, "m") {
         if img.htx.len() < 4_000_000 {
             let d = img.digest();
             ctx.digests.insert(d);
@@ -193,6 +198,31 @@ pub fn regression_histories() -> Vec<History> {
         ops.push(Op::Len);
         out.push(History { kt: "bytes".into(), cfg: Cfg::small(n), keys, ops, origin: format!("regression D2 (key relocation), table {n}") });
     }
+    // D2b: as D2, but every relocating overwrite is followed at once by the insertion of a new key of the same record
+    // size (it takes over the slot the moved record left) and an immediate update of that new key, with no lookup
+    // of any other key in between: whatever is remembered about the slot's former tenant must be gone by then
+    for &n in &[1024u64, 4096] {
+        let mut keys = Vec::new();
+        for i in 0..260u32 {
+            keys.push(format!("key{i:08}").into_bytes());
+        }
+        let mut ops = Vec::new();
+        for i in 0..220usize {
+            ops.push(Op::Put(i, ValSpec { len: 100, seed: i as u32, kind: 0 }));
+        }
+        for (j, i) in [0usize, 1, 5, 100, 219, 3, 7, 9, 11, 13, 15, 17, 19, 21].into_iter().enumerate() {
+            ops.push(Op::Put(i, ValSpec { len: 300, seed: 1000 + i as u32, kind: 0 }));
+            // (a value of the old length: it takes over the value slot the overwrite just freed, at a low offset, so
+            // that the new key record is as short as the moved one was)
+            ops.push(Op::Put(220 + j, ValSpec { len: 100, seed: 3000 + j as u32, kind: 0 }));
+            ops.push(Op::Put(220 + j, ValSpec { len: 99, seed: 4000 + j as u32, kind: 0 }));
+            if j % 3 == 2 {
+                ops.push(Op::Del(220 + j));
+            }
+        }
+        ops.push(Op::Len);
+        out.push(History { kt: "bytes".into(), cfg: Cfg::small(n), keys, ops, origin: format!("regression D2b (slot of a moved record taken over by a new key), table {n}") });
+    }
     // D4: large free slots reused for smaller large values
     {
         let keys: Vec<Vec<u8>> = (0..4u8).map(|i| vec![b'k', i]).collect();
@@ -245,9 +275,18 @@ pub fn c01(a: &Args) -> Ctx {
     let n_hist = a.get_u64("histories", 4) as usize;
     let n_ops = a.get_u64("ops", 20_000) as usize;
     let mon = Mon { get_after_put: true, final_sweep: true, ..Default::default() };
+    // the same monitors without the extra get after every put (a lookup can repair what a put left behind:
+    // some histories must run without reads the history itself does not contain)
+    let mon_quiet = Mon { final_sweep: true, ..Default::default() };
     if a.shard == 0 {
         for (i, h) in regression_histories().iter().enumerate() {
             if run_and_record(a, h, &mon, &mut ctx, &format!("reg{i}")) {
+                return ctx;
+            }
+            let mut hq = h.clone();
+            hq.ops.retain(|o| o.is_update());
+            hq.origin = format!("{} (updates only)", hq.origin);
+            if run_and_record(a, &hq, &mon_quiet, &mut ctx, &format!("regq{i}")) {
                 return ctx;
             }
         }
@@ -275,7 +314,7 @@ pub fn c01(a: &Args) -> Ctx {
         let cfg = Cfg { buckets: Cfg::random_buckets(&mut rng, true), key: Buf::PerMille(1000), val: Buf::Auto, htx: Buf::PerMille(1000) };
         let mut gen = Gen::new(rng.next(), &ed);
         let h = gen_history_kt(kt, &mut gen, &p, cfg, &format!("c01 random pool={} shard={} i={i}", p.pool, a.shard));
-        if run_and_record(a, &h, &mon, &mut ctx, &format!("{i}")) {
+        if run_and_record(a, &h, if i % 4 == 3 { &mon_quiet } else { &mon }, &mut ctx, &format!("{i}")) {
             break;
         }
     }
